@@ -89,6 +89,11 @@ func (w *webSessionFactory) sealToken(token string) (status int, errorStr string
 }
 
 func (w *webSessionFactory) openToken(nonce, enctoken []byte) (status int, errorStr string, token string) {
+	if len(nonce) != w.aesgcm.NonceSize() { // Open() panics on this
+		status = http.StatusBadRequest
+		errorStr = "invalid session token"
+		return
+	}
 	tokendata, err := w.aesgcm.Open(nil, nonce, enctoken, nil)
 	if err != nil {
 		status = http.StatusUnauthorized
